@@ -14,7 +14,7 @@ SOLVER_LEVEL = {"C01", "C02", "C03", "C04", "C05", "C16", "C17"}
 
 # every EST_SHARE-th run of these solver-level checks is an estimator-level history, judged by
 # the same oracles through the estimator API (n_iter_, warm_start refits, positive=True, ...)
-EST_SHARE = {"C17": 6, "C05": 6, "C04": 8, "C03": 12, "C02": 6}
+EST_SHARE = {"C17": 6, "C05": 6, "C04": 8, "C03": 12, "C02": 6, "C16": 5}
 
 
 def make_plan(check, seed, run, engine, tier="quick", entry=None):
